@@ -82,6 +82,15 @@ def gen_arrays(ctx, n):
         if i % 5 == 0:
             x, y = np.sort(x, axis=0), np.sort(y, axis=0)
         bound = [np.inf, 1.0, 0.3][i % 3 if i % 2 else 0]
+        # mixed dtypes: integer-typed candidates with real-valued queries, the reverse, single precision
+        if i % 7 == 3:
+            x, y = 2 * x + 0.37, np.round(2 * y).astype([np.int64, np.int32, np.uint8][i % 3] if i % 3 != 2 else np.int64)
+            if y.dtype == np.uint8:
+                y = np.abs(np.round(2 * rs.randn(ny, nf))).astype(np.uint8)
+        elif i % 7 == 5:
+            x = np.round(2 * x).astype(np.int64)
+        elif i % 7 == 6:
+            x, y = x.astype(np.float32), y.astype(np.float32)
         out.append((x, y, K, bound))
     return out
 
@@ -120,7 +129,7 @@ EXPR = "fun c => let '(D, II, K, ny) := c in run_kdt D II K ny"
 def run(ctx):
     ctx.rule = ('(a) random K-NN query tables (1-9 rows each side, K 1-5, ties, missing neighbours) injected through a wrapped '
                 'cKDTree.query; (b) real feature arrays (1-4 features, 1-%d rows, K 1-15, bounds inf/1.0/0.3, with exact ties '
-                'and sorted variants) whose real query table is rank-coded for the model; non-trivial = at least two rows compete '
+                'and sorted variants; integer-typed candidates with real-valued queries, the reverse, and float32) whose real query table is rank-coded for the model; non-trivial = at least two rows compete '
                 'for one candidate in some column' % (40 if ctx.quick() else 200))
     ctx.proof(extra=['props/Prop_Tie_Kdt.v'])  # translation tie: program regenerated from the source + refinement theorems
     from emd import cycles
@@ -148,7 +157,8 @@ def run(ctx):
                 out = [int(v) for v in xi] + [-7] + [int(v) for v in yi]
             except Exception as e:
                 out = [-2, common.exc_code(e)]
-            inp = dict(x=c['x'].tolist(), y=c['y'].tolist(), K=c['K'], distance_upper_bound=c['bound'])
+            inp = dict(x=c['x'].tolist(), y=c['y'].tolist(), K=c['K'], distance_upper_bound=c['bound'], dtypes=[str(c['x'].dtype), str(c['y'].dtype)])
+            ctx.hist['dtypes-%s/%s' % (c['x'].dtype, c['y'].dtype)] += 1
             Df, bound = c['Df'], c['bound']
         if idx % 173 == 0:
             ctx.sample({k: v for k, v in inp.items()} if c['kind'] == 'table' else
@@ -179,7 +189,8 @@ def replay(rec):
             k = out.index(-7)
             fails = oracle_pairs(out[:k], out[k + 1:], len(i['inds']), i['ny'], i['inds'], None, np.inf)
         else:
-            x, y = np.array(i['x']), np.array(i['y'])
+            dts = i.get('dtypes') or [None, None]
+            x, y = np.array(i['x'], dtype=dts[0]), np.array(i['y'], dtype=dts[1])
             Dz, I, Df = real_table(x, y, i['K'], i['distance_upper_bound'])
             xi, yi = cycles.kdt_match(x, y, K=i['K'], distance_upper_bound=i['distance_upper_bound'])
             fails = oracle_pairs(xi, yi, x.shape[0], y.shape[0], I, Df, i['distance_upper_bound'])
